@@ -56,3 +56,5 @@ REG.ghost('received', List(Ref('Packet')))   # packets handed to Socket.receive,
 from pyvc.lib_rt import FR_T  # noqa: E402
 REG.ghost('ws_log', List(FR_T))       # frames read from / written to the WebSocket, interleaved
 REG.ghost('hresults', List(ANY))       # values returned by application handlers, in order
+REG.ghost('route', List(STR))          # where the middleware sent the request: engine / app
+REG.ghost('opened', List(STR))         # files opened for serving
